@@ -189,6 +189,8 @@ def pretty(t, depth=0) -> str:
         return f"loopvar<{a[0]}>(" + " | ".join(p(x) for x in a[2]) + ")"
     if op == "mut":
         return f"{p(a[0])}.{a[1]}!({', '.join(p(x) for x in a[2])})"
+    if op == "broke":
+        return f"<loop#{a[0]} left by break>"
     if op == "unknown":
         return f"?{a[0]}"
     if op == "star":
@@ -407,6 +409,7 @@ class Interp:
             self_cls: Optional[ClassInfo] = None, qualname: Optional[str] = None) -> Record:
         rec = Record()
         qn = qualname or (f"{self_cls.qualname}.{fnode.name}" if self_cls else f"{mod.name}.{fnode.name}")
+        mod = self.repo.fn_home.get(id(fnode), mod)       # an inherited method runs in the module that defines it
         frame = _Frame(self, mod, fnode, self_cls, rec, qn, depth=0, stack=(id(fnode),))
         st = frame.bind_params(args or {}, symbolic_missing=True)
         final = frame.exec_block(fnode.body, st)
@@ -626,6 +629,9 @@ def _table_row(node, top=True) -> bool:
         return all(_table_row(e, False) for e in node.elts)
     if isinstance(node, ast.UnaryOp) and isinstance(node.operand, ast.Constant):
         return True
+    if isinstance(node, ast.Call) and not top and isinstance(node.func, (ast.Name, ast.Attribute)) and not node.keywords \
+            and all(_table_row(a, False) for a in node.args):
+        return True             # a converter built by a factory: `('lt', 'log_type', _enum_of(OsLogType))`
     return False
 
 
@@ -1368,7 +1374,12 @@ class _Frame:
         self.loops = self.loops[:-1]
         # state after the loop: widened join of "zero iterations" and "after body"
         after = st
-        for n in carried:
+        # the loop target keeps its last value after the loop (`for x in xs: if p(x): break` selects x)
+        tnames = [x.id for x in ast.walk(target) if isinstance(x, ast.Name)] if isinstance(target, ast.AST) else []
+        for n in tnames:
+            if n in st.env:
+                init.setdefault(n, st.env[n])
+        for n in list(carried) + [n for n in tnames if n not in carried]:
             vals = []
             if n in init:
                 vals.append(init[n])
@@ -1400,7 +1411,17 @@ class _Frame:
         after.heap = {}
         after.pc = st.pc
         if orelse:
-            return self.exec_block(orelse, after)
+            if not lr.break_envs:
+                return self.exec_block(orelse, after)
+            # the else block is skipped when the loop was left through `break`: what it rebinds holds only on the other paths
+            before = dict(after.env)
+            res = self.exec_block(orelse, after)
+            if res is not None:
+                broke = T("broke", (lid,))
+                for n, v in list(res.env.items()):
+                    if n in before and before[n] != v:
+                        res.env[n] = T("ite", (broke, before[n], v))
+            return res
         return after
 
     def s_For(self, s, st):
@@ -2039,9 +2060,151 @@ class _Frame:
                     return const(v)
             except Exception:
                 pass
+        if base.op == "global" and idx.op == "const":
+            row = self._spec_table_row(base.a[0], idx.a[0])
+            if row is not None:
+                return row
         self.rec.pops.append(POp("sub", base, idx, st.pc, self.loops, self.trys, self.seq(), self.qualname, n.lineno,
                                  n.col_offset, self.path_of(n.value, st)))
         return key
+
+    def _singleton_instance(self, dotted: str) -> Optional[ClassInfo]:
+        """`NAME = Cls()` at module level, Cls a package class without state of its own (no __init__, no fields): the class."""
+        found = self.repo.lookup(dotted)
+        if not found or found[0] != "const" or not isinstance(found[2], ast.Call) or found[2].args or found[2].keywords:
+            return None
+        cdn = self.repo.dotted(found[1], found[2].func)
+        cf = self.repo.lookup(cdn) if cdn else None
+        if not cf or cf[0] != "class":
+            return None
+        ci: ClassInfo = cf[2]
+        if ci.is_dataclass or ci.enum_kind or "__init__" in ci.methods or "__new__" in ci.methods or ci.fields:
+            return None
+        return ci
+
+    def _is_formatter_class(self, ci: ClassInfo, depth: int = 0) -> bool:
+        for b in ci.bases:
+            if b in ("string.Formatter",):
+                return True
+            f = self.repo.lookup(b) if b.startswith("pykdebugparser.") else None
+            if f and f[0] == "class" and depth < 4 and self._is_formatter_class(f[2], depth + 1):
+                return True
+        return False
+
+    def _formatter_model(self, ci: ClassInfo, obj: T, name: str, args: tuple, kwargs: tuple, st: State) -> Optional[T]:
+        """string.Formatter.format / vformat on an instance of a package subclass: the template (a constant) is split the way
+        the standard class splits it; get_value / convert_field / format_field are the subclass's when it overrides them
+        (inlined), the documented defaults otherwise.  None when the subclass overrides the splitting itself."""
+        import string, _string
+        if any(m in ci.methods for m in ("parse", "get_field", "_vformat", "vformat", "format", "check_unused_args")):
+            return None
+        if not args or args[0].op != "const" or not isinstance(args[0].a[0], str):
+            return None
+        if name == "vformat":
+            if len(args) != 3 or kwargs:
+                return None
+            pos_t, kw_t = args[1], args[2]
+        else:
+            if any(a.op == "star" for a in args) or any(k == "**" for k, _ in kwargs):
+                return None
+            pos_t, kw_t = T("tuple", (tuple(args[1:]),)), T("dict", (tuple((const(k), v) for k, v in kwargs),))
+        parts = []
+        auto = 0
+        try:
+            pieces = list(string.Formatter().parse(args[0].a[0]))
+        except ValueError:
+            return None
+        for lit, field_name, spec, conv in pieces:
+            if lit:
+                parts.append(("lit", lit))
+            if field_name is None:
+                continue
+            if spec and ("{" in spec or "}" in spec):
+                return None
+            first, rest = _string.formatter_field_name_split(field_name)
+            if first == "":
+                if auto is None:
+                    return None
+                first, auto = auto, auto + 1
+            elif isinstance(first, int):
+                auto = None
+            if "get_value" in ci.methods:
+                val = self.inline(ci.module, ci.methods["get_value"], ci, (const(first), pos_t, kw_t), (), st,
+                                  f"{ci.qualname}.get_value", recv=obj)
+            elif isinstance(first, int):
+                val = pos_t.a[0][first] if pos_t.op == "tuple" and first < len(pos_t.a[0]) else None
+            else:
+                val = dict((k.a[0], v) for k, v in kw_t.a[0] if k.op == "const").get(first) if kw_t.op == "dict" else None
+            if val is None:
+                return None
+            for is_attr, key in rest:
+                val = self.attr(val, key, st) if is_attr else T("sub", (val, const(key)))
+            if "convert_field" in ci.methods:
+                val = self.inline(ci.module, ci.methods["convert_field"], ci, (val, const(conv)), (), st,
+                                  f"{ci.qualname}.convert_field", recv=obj)
+                if val is None:
+                    return None
+                conv = None
+            if "format_field" in ci.methods:
+                val = self.inline(ci.module, ci.methods["format_field"], ci, (val, const(spec or "")), (), st,
+                                  f"{ci.qualname}.format_field", recv=obj)
+                if val is None:
+                    return None
+                if val.op == "const" and isinstance(val.a[0], str):
+                    parts.append(("lit", val.a[0]))
+                else:
+                    parts.append(("val", val, conv or "", None))
+            else:
+                parts.append(("val", val, conv or "", const(spec) if spec else None))
+        merged = []
+        for p_ in parts:
+            if p_[0] == "lit" and merged and merged[-1][0] == "lit":
+                merged[-1] = ("lit", merged[-1][1] + p_[1])
+            else:
+                merged.append(p_)
+        if all(p_[0] == "lit" for p_ in merged):
+            return const("".join(p_[1] for p_ in merged))
+        return T("fstr", (tuple(merged),))
+
+    def _spec_table_row(self, dotted: str, key) -> Optional[T]:
+        """TABLE['key'] for a module-level dict literal with constant keys that nothing in its module changes afterwards (a
+        specification table that decoders are generated from): the row's value, evaluated where the table is defined."""
+        found = self.repo.lookup(dotted)
+        if not found or found[0] != "const" or not isinstance(found[2], ast.Dict) or self.depth >= self.I.inline_depth:
+            return None
+        node, hmod = found[2], found[1]
+        name = dotted.rpartition(".")[2]
+        frozen = self.I.__dict__.setdefault("_frozen_tables", {})
+        fk = (hmod.name, name)
+        if fk not in frozen:
+            ok = all(isinstance(k, ast.Constant) for k in node.keys)
+            stores = 0
+            for x in ast.walk(hmod.tree):
+                if isinstance(x, ast.Name) and x.id == name and isinstance(x.ctx, ast.Store):
+                    stores += 1
+                if isinstance(x, (ast.Subscript, ast.Attribute)) and isinstance(x.ctx, (ast.Store, ast.Del)) \
+                        and isinstance(x.value, ast.Name) and x.value.id == name:
+                    ok = False
+                if isinstance(x, ast.Call) and isinstance(x.func, ast.Attribute) and x.func.attr in MUTATORS \
+                        and isinstance(x.func.value, ast.Name) and x.func.value.id == name:
+                    ok = False
+                if isinstance(x, ast.AugAssign) and isinstance(x.target, ast.Name) and x.target.id == name:
+                    ok = False
+            frozen[fk] = ok and stores == 1
+        if not frozen[fk]:
+            return None
+        hit = None
+        for k, v in zip(node.keys, node.values):
+            if type(k.value) is type(key) and k.value == key:
+                hit = v
+        if hit is None:
+            return None
+        cache = self.I.__dict__.setdefault("_table_cache", {})
+        if id(hit) not in cache:
+            fr = _Frame(self.I, hmod, self.fnode, None, Record(), f"{hmod.name}.<module>", self.depth + 1, self.stack)
+            v = fr.eval(hit, State({}, {}, ()))
+            cache[id(hit)] = v
+        return cache[id(hit)]
 
     def _old_value_loads(self, v: T, key: T, base: T, idx: T, st: State, n) -> None:
         """A stored item read back: on the branches where nothing was stored the load is the original partial
@@ -2597,6 +2760,19 @@ class _Frame:
                             st.env[root_.id] = rf           # the method changed its object: the caller's name sees it
                         self._recv_final = None
                         return r
+            if recv.op == "global" and recv.a[0].startswith("pykdebugparser."):
+                inst = self._singleton_instance(recv.a[0])
+                if inst is not None:
+                    obj_ = T("new", (inst.qualname, ()))
+                    if name in inst.methods:
+                        r = self.inline(inst.module, inst.methods[name], inst, args, kwargs, st, f"{inst.qualname}.{name}", recv=obj_)
+                        self._recv_final = None
+                        if r is not None:
+                            return r
+                    elif name in ("format", "vformat") and self._is_formatter_class(inst):
+                        r = self._formatter_model(inst, obj_, name, args, kwargs, st)
+                        if r is not None:
+                            return r
             if name in MUTATORS:
                 pth = self.path_of(node.func.value, st) if isinstance(node, ast.Call) and isinstance(node.func, ast.Attribute) else None
                 self.effect("mut-call", recv, name, args[-1] if args else None, args, st, node, path=pth)
@@ -2773,6 +2949,7 @@ class _Frame:
             dn = ast.unparse(d)
             if dn not in ("staticmethod", "classmethod") and not (cls is None and self.I.decorators_return_function(mod, fnode)):
                 return None
+        mod = self.repo.fn_home.get(id(fnode), mod)
         fr = _Frame(self.I, mod, fnode, cls, self.rec, qualname, self.depth + 1, self.stack + (id(fnode),),
                     base_pc=st.pc, base_loops=self.loops, base_trys=self.trys)
         pos = list(args)
@@ -2990,7 +3167,7 @@ def root_of(t: T) -> T:
     return t
 
 
-_ID_POS = {"lambda": 0, "bound": 1, "elem": 1, "widen": 1}
+_ID_POS = {"lambda": 0, "bound": 1, "elem": 1, "widen": 1, "broke": 0}
 
 
 def canon(obj):
